@@ -236,6 +236,7 @@ theorem DgSame.appShutdown (e : EP) (h : Nat) : DgSame e (appShutdown e h).1 := 
   repeat' split
   all_goals first
     | exact DgSame.refl e
+    | exact DgSame.modObj _ _ _
     | exact DgSame.after (DgSame.enqFrame _ _ (by intros; simp)) (DgSame.modObj _ _ _)
 
 theorem DgSame.appDropStream (e : EP) (h : Nat) : DgSame e (appDropStream e h).1 := by
